@@ -5,6 +5,7 @@ extern crate tsrun;
 
 mod gcmiri;
 mod gcreplay;
+mod modules;
 mod orders;
 mod gctrace;
 mod rng;
@@ -20,6 +21,7 @@ fn main() {
         "pathnorm" => pathnorm::main(&rest),
         "gcreplay" => gcreplay::main(&rest),
         "gctrace" => gctrace::main(&rest),
+        "modules" => modules::main(&rest),
         "orders" => orders::main(&rest),
         "gcmiri" => gcmiri::main(&rest),
         _ => {
